@@ -846,16 +846,18 @@ example : ¬ AliasCover [⟨1, 0#32, 0xe#32, 8⟩] [((0#32, 0xe#32), [(0#32, 0xf
 
 /-! ## Deepening 4: `Routes` and `RoutingTableEntry` (entries.py) -/
 
-open Rig.Gen.C04Routes in
-/-- the enumeration as the source has it: values 0..23 in definition order, distinct names, the
-six links first -/
+/-- the enumeration as the source has it (independent of the definition order and of the names of
+the core routes): 24 members with distinct names whose values are exactly 0..23, the six links
+carry the hardware numbers E=0, NE=1, N=2, W=3, SW=4, S=5 (so that `(l + 3) % 6` is the opposite
+link), and `sources` defaults to `{None}` -/
 theorem routes_members :
-    List.map (·.2) Rig.Gen.C04Routes.members = List.range 24 ∧
+    Rig.Gen.C04Routes.members.length = 24 ∧
+    (List.range 24).all (fun v => (List.map (·.2) Rig.Gen.C04Routes.members).contains v) = true ∧
     (List.map (·.1) Rig.Gen.C04Routes.members).Nodup ∧
-    List.map (·.1) (List.filter (fun p => isLink p.2) Rig.Gen.C04Routes.members) =
-      ["east", "north_east", "north", "west", "south_west", "south"] ∧
-    defaultSources = [24] := by
-  refine ⟨by decide, by decide, by decide, by decide⟩
+    [("east", 0), ("north_east", 1), ("north", 2), ("west", 3), ("south_west", 4), ("south", 5)].all
+      (fun p => Rig.Gen.C04Routes.members.contains p) = true ∧
+    Rig.Gen.C04Routes.defaultSources = [24] := by
+  refine ⟨by decide, by decide, by decide, by decide, by decide⟩
 
 theorem routesOfValue_ok : ∀ v, v < 24 → routesOfValue v = .ok v := by decide
 
